@@ -226,13 +226,14 @@ class ComponentLevel3( ComponentLevel2 ):
       if Type.nbits != o2.nbits:
         raise InvalidConnectionError( f"Bitwidth mismatch when connecting a {Type2} constant "
                                       f"to signal {o1} with type {Type}." )
-      o2 = Const( Type, o2, s )
+      # The constant is the value now: the caller may reuse its object
+      o2 = Const( Type, type(o2)( o2 ) if type(o2) is not Bits else o2.clone(), s )
     elif is_bitstruct_inst( o2 ):
       Type2 = type(o2)
       if Type is not Type2:
         raise InvalidConnectionError( f"We don't support connecting a {Type2} constant bitstruct"
                                       f"to non-bitstruct type {Type}" )
-      o2 = Const( Type, o2, s )
+      o2 = Const( Type, o2.clone(), s )
     else:
       raise InvalidConnectionError(f"\n>>> {o2} of type {type(o2)} is not a const! \n"
                                    f">>> It cannot be connected to signal {o1} of type {o1._dsl.Type}!\n"
